@@ -352,7 +352,7 @@ def rand_case(rng: random.Random, idx: int, traditional: bool = False, allow_enu
 def f_shape(quick: bool, seed: int, traditional: bool = False) -> List[Case]:
     cases = f_shape_core()
     rng = random.Random(1000003 * (seed + 1))
-    for i in range(20 if quick else 300):
+    for i in range(20 if quick else 600):
         cases.append(rand_case(rng, i, traditional=False))
     if traditional:
         cases = [c for c in cases if not is_extensible_case(c)]
